@@ -120,7 +120,17 @@ Definition mon_cosim (ins : list N) : bool :=
   | _ => false
   end.
 
+(* kind 160 (C07): [outcome class (0 ok, 1 error, 2 clean panic); delivered length within the buffer;
+   number of contract violations the instrumented platform has seen (unshare / dealloc not matching a live
+   share / allocation)] *)
+Definition mon_safe (ins : list N) : bool :=
+  match ins with
+  | [class; len_ok; viol] => (class <=? 2) && (len_ok =? 1) && (viol =? 0)
+  | _ => false
+  end.
+
 Definition queue_monitor (k : N) (ins : list N) : list N :=
+  if k =? 160 then [b2n (mon_safe ins)] else
   if k =? 155 then [b2n (mon_notify ins)] else
   if k =? 156 then [b2n (mon_cosim ins)] else
   if k =? 157 then match ins with [ue; lu] => [b2n (ue =? lu)] | _ => [77777] end else
